@@ -124,9 +124,17 @@ package client
 // ---------------------------------------------------------------- only acknowledged parts count as sent (C08)
 
 //@ func (*Broker).handleSendError
+//@   modifies nothing
 //@   before call sts.Payload.Split assert split-at-acknowledged: arg0 == old(payload) && (nPartsReceived > 0 ==> arg1 == nPartsReceived) && (nPartsReceived == 0 ==> called(TxRecoverer) && lastret(TxRecoverer, 1) == nil && arg1 == lastret(TxRecoverer, 0) && lastarg(TxRecoverer, 0) == old(payload))
 //@   before call sendCh assert forwards-acknowledged-head: called(sts.Payload.Split) && arg2 == old(payload) && arg1 == broker.chTransmitted
 //@   on return assert acknowledged-parts-are-split-off: nPartsReceived > 0 && !lastret((*Broker).shouldStopNow, 0) ==> called(sts.Payload.Split) && lastarg(sts.Payload.Split, 1) == nPartsReceived
 //@   on return assert remainder-is-returned: called(sendCh) && lastret(sendCh, 0) ==> result == lastret(sts.Payload.Split, 0)
 //@   loop 0 invariant count-of-the-answer-is-kept: (nPartsReceived > 0 ==> n == nPartsReceived) && payload == old(payload)
 //@   on return assert nothing-acknowledged-nothing-dropped: !called(sts.Payload.Split) ==> result == old(payload) && !called(sendCh)
+
+//@ func (*Broker).startSend
+//@   before call sendCh assert forward-needs-ack: called(Transmitter) && lastret(Transmitter, 1) == nil && lastarg(Transmitter, 0) == arg2 && arg1 == broker.chTransmitted
+//@   before call (*Broker).handleSendError assert recovery-of-the-failed-payload: called(Transmitter) && lastret(Transmitter, 1) != nil && arg1 == lastarg(Transmitter, 0) && arg2 == lastret(Transmitter, 0)
+//@   loop 1 backedge assert retry-keeps-remainder: called((*Broker).handleSendError) && payload == lastret((*Broker).handleSendError, 0) && payload != nil
+//@   before call sts.Payload.Remove assert changed-files-dropped: arg0 == payload && arg1 == binned && (file == nil || (called(sts.FileSource.Sync) && (lastret(sts.FileSource.Sync, 0) != nil || lastret(sts.FileSource.Sync, 1) != nil)))
+//@   loop 3 backedge assert unchanged-files-kept: !called(sts.Payload.Remove) ==> called(sts.FileSource.Sync) && lastret(sts.FileSource.Sync, 0) == nil && lastret(sts.FileSource.Sync, 1) == nil && lastarg(sts.FileSource.Sync, 1) == file && file == lastret(sts.FileCache.Get, 0) && lastarg(sts.FileCache.Get, 1) == binned.GetName()
